@@ -25,6 +25,7 @@ EXPLANATION = (
     "activation transmits at most once; (R5) create_connection is awaited only under asyncio.wait_for(..., timeout <= 5); (R6) the "
     "validators run by the receive callbacks are total (index and conversion safety, shared with C01.R4), so that no exception other "
     "than the two documented ones leaves a callback after it cancelled the timer. Timing and exact counts under fault scripts are not decided."
+    ' (R7) a callback stores _retry = 0 only on paths on which it also completes the request (result / exception set, future found done or absent): a reset followed by a cancellation would re-enter the retry branch with a fresh budget.'
 )
 
 
